@@ -77,6 +77,12 @@ package dns
 
 //@ func UnpackDomainName [C02 C03]
 //@   requires 0 <= off
+//@   assert at ", lenmsg, ErrBuf@1" e1: off >= len(msg) [C03]
+//@   assert at ", lenmsg, ErrBuf@2" e2: off + c > len(msg) && 1 <= c && c <= 63 [C03]
+//@   assert at ", lenmsg, ErrLongDomain" e3: budget <= 0 [C03]
+//@   assert at ", lenmsg, ErrBuf@3" e4: off >= len(msg) [C03]
+//@   assert at "too many compression pointers" e5: ptr > 10 [C03]
+//@   assert at ", lenmsg, ErrRdata" e6: (c / 64) % 4 == 1 || (c / 64) % 4 == 2 [C03]
 //@   ensures ok:   ret2 == nil ==> off < ret1 && ret1 <= len(msg)
 //@   ensures fail: ret2 != nil ==> ret1 == len(msg)
 //@   loop 1 invariant lenmsg == len(msg) && 0 <= off && 0 <= ptr && ptr <= maxCompressionPointers
